@@ -1,4 +1,5 @@
 """C13 — selective expansion expands exactly the selected templates and honours the hooks."""
+import json
 import lib
 import regen
 import gen_wt as G
@@ -59,6 +60,7 @@ def run(run):
     n = 700 if run.tier == "quick" else 20000
     cases = [make_case(run.rng) for _ in range(n)]
     c04.run_cases(run, cases, "sel")
+    check_twins(run, run.rng, run.tier == "quick")
     idc = [identity_case(run.rng) for _ in range(200 if run.tier == "quick" else 4000)]
     res = c04.run_cases(run, idc, "selid", use_oracle=False)
     for c, r in zip(idc, res):
@@ -78,6 +80,59 @@ def run(run):
             run.property_failure("c13:identity", "nothing selected, parser functions off: %r came back as %r"
                                  % (c["page"], r["out"]), {k: c[k] for k in ("lib", "page", "opts", "title")})
     run.extra["traces_validated_against_impl"] = run.evaluations
+
+
+def twin_cases(rng, n):
+    """A call and its display-only twin (the same text with <nowiki/> between its braces) on one page: the twin must stay text and
+    must not change what happens to the real call.  Metamorphic reference: the same page with a twin that differs by a token."""
+    out = []
+    tok = "Qz9"
+    for _ in range(n):
+        c = make_case(rng)
+        names = [t[0] for t in c["lib"]]
+        name = rng.choice([nm[:1].lower() + nm[1:] for nm in names] + ["nosuch"])
+        arg = rng.choice(["x", "k=v", " y ", ""])
+        kind = rng.choice(["call", "call", "param"])
+        if kind == "call":
+            real = "{{%s|%s}}" % (name, arg)
+            twin = lambda a: rng_choice_form("{{%s|%s}}" % (name, a))
+        else:
+            real = "{{{1|%s}}}" % arg
+            twin = lambda a: rng_choice_form("{{{1|%s}}}" % a)
+        form = rng.choice(["open", "close"])
+
+        def rng_choice_form(text):
+            return ("{<nowiki/>" + text[1:]) if form == "open" else (text[:-1] + "<nowiki/>}")
+        order = rng.random() < 0.5
+        fill = [rng.choice(["a ", " b ", "\n", "''i'' ", "c"]) for _ in range(3)]
+
+        def page(tw):
+            parts = [tw, real] if order else [real, tw]
+            if rng_extra:
+                parts.append(real)
+            return fill[0] + parts[0] + fill[1] + parts[1] + fill[2] + "".join(parts[2:])
+        rng_extra = rng.random() < 0.3
+        base = {"lib": c["lib"], "opts": c["opts"], "title": "Tt"}
+        out.append((dict(base, page=page(twin(arg))), dict(base, page=page(twin(arg + tok))), tok))
+    return out
+
+
+def check_twins(run, rng, quick):
+    tw = twin_cases(rng, 150 if quick else 4000)
+    flat = [x for a, b, _ in tw for x in (a, b)]
+    res = lib.run_impl("expandlib", flat, shards=lib.NCPU)
+    for i, (a, b, tok) in enumerate(tw):
+        ra, rb = res[2 * i], res[2 * i + 1]
+        run.count(["twin", a["page"], a["opts"]], True, "twin")
+        if ra.get("outcome") != "ok" or rb.get("outcome") != "ok":
+            continue              # raised / timed out: other parts of the check report that
+        strip = lambda x: json.loads(json.dumps(x).replace(tok, ""))
+        if ra["out"] != rb["out"].replace(tok, ""):
+            run.property_failure("c13:display-twin-changes-output",
+                                 "%r -> %r, but with a twin that differs by a token the page gives %r" % (a["page"], ra["out"], rb["out"]), a)
+        elif strip(ra.get("calls")) != strip(rb.get("calls")):
+            run.property_failure("c13:display-twin-changes-hook-calls",
+                                 "hook calls %r vs %r" % (ra.get("calls"), rb.get("calls")), a)
 
 
 def replay(data):
